@@ -151,6 +151,32 @@ func (s StrV) bytesTerms() []*Term {
 	return out
 }
 
+// byteAt returns byte idx (nil: out of range). Bytes of the literal/symbolic-byte segments in front of the first
+// opaque atom are reachable; an index at or behind an atom is not decided here.
+func (s StrV) byteAt(idx int) *Term {
+	if idx < 0 {
+		return nil
+	}
+	k := 0
+	for _, g := range s.Segs {
+		switch {
+		case g.Atom != nil:
+			panic(unsupported("byte access into opaque atom"))
+		case g.Byte != nil:
+			if k == idx {
+				return g.Byte
+			}
+			k++
+		default:
+			if idx < k+len(g.Lit) {
+				return mkBV(uint64(g.Lit[idx-k]), 8)
+			}
+			k += len(g.Lit)
+		}
+	}
+	return nil
+}
+
 func strFromBytes(bs []*Term) StrV {
 	r := StrV{}
 	for _, b := range bs {
@@ -219,7 +245,6 @@ func zero(t types.Type) Value {
 	}
 	panic(unsupported("zero of %v", t))
 }
-
 
 func copyVal(v Value) Value {
 	switch v := v.(type) {
